@@ -218,3 +218,20 @@ package eval
 //@   inline 4 1
 //@   callsite[C24] Eval false
 //@   witness site:call.0#0 "def a(x)\n  x\nend\n\nif a(1) == 2\n  1\nend\n" args "--llm-nav --target=a" expect "total callers: 2"
+
+//@ # ---- C17: block parameters ----
+//@ func ti/eval.slotAt
+//@   requires i >= 0
+//@   safe
+//@   loop 0 decreases i + 1 - len(slots)
+//@   loop 0 invariant len(slots) >= len(entry_slots)
+//@   ensures[C01,C17] len(result) > i && len(result) >= len(slots)
+//@ func (*ti/eval.Do).appendParameterBeforeTypeCalculate
+//@   safe idx,slice
+//@   inline 2 1
+//@   witness idx#1 "h = {a: 1}\nh.merge do |k, a, b|\n  a\nend\n"
+//@   witness idx#15 "x = [[1,2,3,4,5,6,7,8,9,10,11,12,13,14,15,16,17,18,19,20,21]]\nx.each do |a, b|\n  dbtp a\nend\n"
+//@   witness idx#12 "x = [Object.new,Object.new,Object.new,Object.new,Object.new,Object.new,Object.new,Object.new,Object.new,Object.new,Object.new,Object.new,Object.new,Object.new,Object.new,Object.new,Object.new,Object.new,Object.new,Object.new,Object.new,Object.new]\nx.each do |a, b|\n  dbtp a\nend\n"
+//@ func (*ti/eval.Do).setBlockParameters
+//@   safe idx,slice
+//@   inline 2 1
